@@ -1,8 +1,194 @@
-//! W4 configuration world (C14).
+//! W4 configuration world (C14): one trace executed under several storage backends and node-cache
+//! settings; observations (the per-step result log) and final file bytes must be identical.
+
+use crate::disk::Backend;
 use crate::harness::CaseOut;
+use crate::world::{CacheMode, Cfg, ScanMode, Step, Viol, World};
 use serde::{Deserialize, Serialize};
+
+#[derive(Clone, Debug, Serialize, Deserialize, PartialEq)]
+pub struct Arm {
+    pub backend: Backend,
+    pub cache: CacheMode,
+    /// run in the second binary built without the `sparse` feature
+    #[serde(default)]
+    pub nosparse: bool,
+}
+
 #[derive(Clone, Debug, Serialize, Deserialize, PartialEq, Default)]
-pub struct ConfigSpec {}
-pub fn run_config(_s: &ConfigSpec) -> CaseOut {
-    CaseOut::default()
+pub struct ConfigSpec {
+    pub key_seed: u64,
+    pub replicas: u8,
+    pub steps: Vec<Step>,
+    pub arms: Vec<Arm>,
+}
+
+#[derive(Clone, Debug, Serialize, Deserialize, PartialEq)]
+pub struct ArmResult {
+    pub log: Vec<String>,
+    pub files: Vec<Vec<Vec<u8>>>,
+    pub aborted: Option<String>,
+}
+
+pub fn run_arm(spec: &ConfigSpec, arm: &Arm) -> ArmResult {
+    let mut cfg = Cfg::basic(spec.key_seed);
+    cfg.replicas = spec.replicas;
+    cfg.cache = arm.cache;
+    cfg.backend = arm.backend;
+    cfg.scan = ScanMode::Full;
+    cfg.subscribers = 1;
+    let mut w = World::new(cfg);
+    w.keep_trace_log = true;
+    w.create_all();
+    w.run_steps(&spec.steps);
+    let files: Vec<Vec<Vec<u8>>> = (0..w.nodes.len()).map(|n| w.files(n).to_vec()).collect();
+    ArmResult { log: std::mem::take(&mut w.trace_log), files, aborted: w.aborted.clone() }
+}
+
+fn nosparse_binary() -> Option<std::path::PathBuf> {
+    let p = crate::harness::verif_dir().join("sim/target-nosparse/release/hcsim");
+    if p.exists() {
+        Some(p)
+    } else {
+        None
+    }
+}
+
+fn run_arm_external(spec: &ConfigSpec, arm: &Arm) -> Option<ArmResult> {
+    let bin = nosparse_binary()?;
+    static CTR: std::sync::atomic::AtomicU64 = std::sync::atomic::AtomicU64::new(0);
+    let c = CTR.fetch_add(1, std::sync::atomic::Ordering::SeqCst);
+    let f = std::path::PathBuf::from(format!("/dev/shm/hcsim-arm-{}-{}.json", std::process::id(), c));
+    let mut one = spec.clone();
+    one.arms = vec![Arm { nosparse: false, ..arm.clone() }];
+    std::fs::write(&f, serde_json::to_string(&one).unwrap()).ok()?;
+    let out = std::process::Command::new(bin).arg("c14-arm").arg(&f).output().ok();
+    let _ = std::fs::remove_file(&f);
+    let out = out?;
+    if !out.status.success() {
+        return None;
+    }
+    serde_json::from_slice(&out.stdout).ok()
+}
+
+pub fn run_config(spec: &ConfigSpec) -> CaseOut {
+    let mut out = CaseOut::default();
+    out.nontrivial = spec.steps.iter().any(|s| s.is_mutating())
+        && spec.steps.iter().any(|s| matches!(s, Step::Reopen { .. }));
+    if spec.arms.is_empty() {
+        return out;
+    }
+    let reference = run_arm(spec, &spec.arms[0]);
+    out.count("arms_executed", 1);
+    out.sim_steps = reference.log.len() as u64;
+    let mut d = crate::rng::Digest::default();
+    for l in &reference.log {
+        d.str(l);
+    }
+    out.log_hash = d.0;
+    if let Some(a) = &reference.aborted {
+        // the reference arm itself failed: C01/C03's clause, not a configuration difference
+        out.aborted = Some(format!("reference arm failed: {a}"));
+    }
+    let mut viols: Vec<Viol> = vec![];
+    for arm in &spec.arms[1..] {
+        let r = if arm.nosparse {
+            match run_arm_external(spec, arm) {
+                Some(r) => {
+                    out.count("arm_disk_without_sparse", 1);
+                    r
+                }
+                None => {
+                    out.count("nosparse_arm_unavailable", 1);
+                    continue;
+                }
+            }
+        } else {
+            run_arm(spec, arm)
+        };
+        out.count("arms_executed", 1);
+        out.count(&format!("arm_{:?}_{:?}", arm.backend, arm.cache), 1);
+        // observations
+        let n = reference.log.len().min(r.log.len());
+        let mut first = None;
+        for i in 0..n {
+            if reference.log[i] != r.log[i] {
+                first = Some(i);
+                break;
+            }
+        }
+        if first.is_none() && reference.log.len() != r.log.len() {
+            first = Some(n);
+        }
+        if let Some(i) = first {
+            viols.push(Viol {
+                clause: "C14.observations".into(),
+                step: i as i64,
+                msg: format!(
+                    "arm {:?} differs from reference {:?} at observation {i}: reference `{}` vs `{}`",
+                    arm,
+                    spec.arms[0],
+                    reference.log.get(i).cloned().unwrap_or_else(|| "<end>".into()),
+                    r.log.get(i).cloned().unwrap_or_else(|| "<end>".into())
+                ),
+            });
+            continue;
+        }
+        // bytes (same backend family or not: lengths and contents must agree, holes read as zeros)
+        for (nidx, (fa, fb)) in reference.files.iter().zip(r.files.iter()).enumerate() {
+            for s in 0..4 {
+                // A zero-length write at or beyond the end of file (appending an empty block)
+                // extends the in-memory backends' length but not a real file: compare up to
+                // trailing zero bytes when a real-disk arm is involved ("up to zero-filled holes").
+                let disk_involved = arm.backend == Backend::DiskFs || spec.arms[0].backend == Backend::DiskFs;
+                let strip = |v: &Vec<u8>| -> usize {
+                    let mut n = v.len();
+                    while n > 0 && v[n - 1] == 0 {
+                        n -= 1;
+                    }
+                    n
+                };
+                let equal = if disk_involved {
+                    let (na, nb) = (strip(&fa[s]), strip(&fb[s]));
+                    fa[s][..na] == fb[s][..nb]
+                } else {
+                    fa[s] == fb[s]
+                };
+                if !equal {
+                    let pos = fa[s].iter().zip(fb[s].iter()).position(|(a, b)| a != b);
+                    viols.push(Viol {
+                        clause: "C14.bytes".into(),
+                        step: -1,
+                        msg: format!(
+                            "arm {:?}: node {nidx} {} file differs from reference {:?} (lengths {} vs {}, first differing byte {:?})",
+                            arm,
+                            crate::disk::STORE_NAMES[s],
+                            spec.arms[0],
+                            fa[s].len(),
+                            fb[s].len(),
+                            pos
+                        ),
+                    });
+                    break;
+                }
+            }
+        }
+    }
+    out.viols = viols;
+    out
+}
+
+/// entry point of the second (no-sparse) binary: run one arm, print its result as JSON
+pub fn arm_main(path: &str) -> i32 {
+    let s = match std::fs::read_to_string(path) {
+        Ok(s) => s,
+        Err(_) => return 2,
+    };
+    let spec: ConfigSpec = match serde_json::from_str(&s) {
+        Ok(s) => s,
+        Err(_) => return 2,
+    };
+    let r = run_arm(&spec, &spec.arms[0]);
+    println!("{}", serde_json::to_string(&r).unwrap());
+    0
 }
